@@ -912,8 +912,6 @@ func (p *parser) parseAssignmentExpression() ast.Expression {
 		operator = token.REMAINDER
 	case token.AND_ASSIGN:
 		operator = token.AND
-	case token.AND_NOT_ASSIGN:
-		operator = token.AND_NOT
 	case token.OR_ASSIGN:
 		operator = token.OR
 	case token.EXCLUSIVE_OR_ASSIGN:
